@@ -345,6 +345,9 @@ class Ctx:
             short = fnp.rsplit("::", 1)[-1]
             if short in ("from", "into", "into_future", "into_iter") and len(n["args"]) == 1 and fnp.startswith("core::"):
                 return self.term(n["args"][0], depth + 1)
+            if fnp in ("core::mem::take", "std::mem::take") and len(n["args"]) == 1 and peel_ty(n.get("ty", "")).startswith("alloc::vec::Vec<"):
+                # moving a whole Vec out (leaving it empty) = draining its full range, in order, into a new Vec
+                return "%s.drain(RangeFull{}).collect()" % self.term(n["args"][0], depth + 1)
             if fnp in ("core::cmp::max", "core::cmp::min", "std::cmp::max", "std::cmp::min"):
                 args = sorted(self.term(a, depth + 1) for a in n["args"])
                 return "%s(%s)" % (short, ",".join(args))
@@ -507,7 +510,17 @@ class Ctx:
                     a, b = self.formula(n["l"], benv), self.formula(n["r"], benv)
                     eq = Or(And(a, b), And(Not(a), Not(b)))
                     return eq if op == "==" else Not(eq) if op == "!=" else Atom("e:" + self.term(n))
-                return cmp_formula(op, self.term(n["l"]), self.term(n["r"]))
+                tl, tr = self.term(n["l"]), self.term(n["r"])
+                # `x.len() > 0`, `x.len() != 0`, `x.len() >= 1`, `0 < x.len()` .. are spellings of `!x.is_empty()`
+                flip = {"<": ">", "<=": ">=", ">": "<", ">=": "<=", "==": "==", "!=": "!="}
+                for a, b, o in ((tl, tr, op), (tr, tl, flip[op])):
+                    if a.endswith(".len()") and b in ("0", "1"):
+                        e = Atom("empty(%s)" % a[:-len(".len()")])
+                        if (b, o) in (("0", "=="), ("0", "<="), ("1", "<")):
+                            return e
+                        if (b, o) in (("0", "!="), ("0", ">"), ("1", ">=")):
+                            return Not(e)
+                return cmp_formula(op, tl, tr)
             return Atom("e:" + self.term(n))
         if k == "un" and n["op"] == "!":
             return Not(self.formula(n["e"], benv))
